@@ -433,7 +433,7 @@ def run(ctx):
         try:
             for ln in open(os.path.join(d, "model.stats")):
                 k, v = ln.split()
-                model_stats[k] = max(model_stats.get(k, 0), int(v)) if k == "max_window" else model_stats.get(k, 0) + int(v)
+                model_stats[k] = max(model_stats.get(k, -1), int(v)) if k.startswith("max_window") else model_stats.get(k, 0) + int(v)
         except OSError:
             pass
         cmp_total += cnt
@@ -496,9 +496,10 @@ def run(ctx):
         crash_point_events_accepted=events_total,
         crash_points_in_source=len(src_pts),
         powerloss_simulation=powerloss,
-        acceptor=dict(model_stats, note="max_window = most snapshot goroutines seen between 'snap file written' and 'WAL marker written' "
-                                        "(the schedule hypothesis of the theorems needs fewer than KeepBackup = 2); log_order_races = events accepted "
-                                        "after completing another goroutine's in-flight sub-step"),
+        acceptor=dict(model_stats, note="max_window_at_snap_purge = most snapshot goroutines between 'snap file written' and 'WAL marker written' at a "
+                                        "decision of the snap directory purge (the schedule hypothesis of the theorems needs fewer than KeepBackup = 2 there; "
+                                        "-1 = no such decision seen); max_window = the same over all states; log_order_races = events accepted after "
+                                        "completing another goroutine's in-flight sub-step (the events passed through candidate crash images count too)"),
         mismatches=len(all_mism),
         samples=samples[:5],
     ), assumptions=[
